@@ -115,6 +115,35 @@ func appendEdit(rng *rand.Rand, b *jBundle, step int) string {
 					e.Decl.Fields = append(e.Decl.Fields, newField())
 					return "append field to object " + e.Decl.Name
 				}})
+				// an inline object whose nested name is the name of a package-level type this object already refers to
+				for _, ef := range e.Decl.Fields {
+					t := ef.T
+					for t != nil && t.Item != nil {
+						t = t.Item
+					}
+					if t == nil || t.Kind != kObject || t.Inline != nil || !strings.HasPrefix(t.RefFull, f.Pkg+".") {
+						continue
+					}
+					typeName := strings.TrimPrefix(t.RefFull, f.Pkg+".")
+					fieldName := strings.ToLower(typeName[:1]) + typeName[1:]
+					if typeName == e.Decl.Name || strings.Contains(typeName, ".") {
+						continue
+					}
+					dup := false
+					for _, x := range e.Decl.Fields {
+						if x.Name == fieldName {
+							dup = true
+						}
+					}
+					if dup {
+						continue
+					}
+					targets = append(targets, target{"object-field-inline-named-as-type", func() string {
+						e.Decl.Fields = append(e.Decl.Fields, fld(fieldName, &jT{Kind: kObject, Inline: &jDecl{Kind: kObject, Fields: []*jF{fld("inner", tScalar(kString))}}}))
+						return "append inline object field " + fieldName + " (nested " + typeName + ") to object " + e.Decl.Name
+					}})
+					break
+				}
 			case e.Decl != nil && e.Decl.Kind == kOneof:
 				targets = append(targets, target{"oneof-option", func() string {
 					e.Decl.Fields = append(e.Decl.Fields, fld("appended"+c13Suffix[step%len(c13Suffix)], &jT{Kind: kObject, Inline: &jDecl{Kind: kObject, Fields: []*jF{fld("inner", tScalar(kString))}}}))
@@ -225,6 +254,22 @@ func appendEdit(rng *rand.Rand, b *jBundle, step int) string {
 	return t.kind + ": " + t.do()
 }
 
+// dottedBundle: source files with further dots in their names; only the first declares a service and a topic
+func dottedBundle(rng *rand.Rand) *jBundle {
+	g := &j5Gen{rng: rng}
+	k := &j5Known{pkg: "ord.v1", enums: map[string][]string{}}
+	read := &jFile{Path: "ord/v1/orders.read.j5s", Pkg: "ord.v1", Elems: []*jElem{
+		objDecl("OrderView", g.fields(k, 1+rng.Intn(3), "")...),
+		{Service: &jService{Name: "OrderRead", BasePath: "/ord/v1/read", Methods: []*jMethod{{Name: "GetOrderView", HTTPMethod: "GET", Path: "/one", HasRes: true, Res: []*jF{fld("view", tRef(kObject, "OrderView", "ord.v1.OrderView"))}}}}},
+		{Topic: &jTopic{Name: "OrderRead", Type: "publish", Messages: []*jTopicMsg{{Name: "PostOrderView", Fields: []*jF{fld("name", tScalar(kString))}}}}},
+	}}
+	write := &jFile{Path: "ord/v1/orders.write.j5s", Pkg: "ord.v1", Elems: []*jElem{
+		objDecl("OrderDraft", g.fields(k, 1+rng.Intn(3), "")...),
+		enumDecl("OrderMode", "FAST", "SLOW"),
+	}}
+	return &jBundle{Files: []*jFile{read, write}}
+}
+
 func entityBundle(rng *rand.Rand) *jBundle {
 	g := &j5Gen{rng: rng}
 	k := &j5Known{pkg: "ent.v1", enums: map[string][]string{}}
@@ -240,6 +285,8 @@ func runC13(r *rt.Runner) {
 			var bundle *jBundle
 			if b%4 == 3 {
 				bundle = entityBundle(rng)
+			} else if b%8 == 2 {
+				bundle = dottedBundle(rng)
 			} else {
 				bundle = (&j5Gen{rng: rng}).randomBundle()
 			}
